@@ -20,7 +20,7 @@ RULES = {
     'R9': 'the notifier\'s count is the number of chunks not taken yet, whatever the order of the reader\'s calls: qb_rb_chunk_peek gives the count it waited for back on every path (it takes no chunk), qb_rb_chunk_reclaim and qb_rb_chunk_read take one count for the chunk they take out (reclaim without blocking, and not at all if no count is there), and the internal reclaim they share takes none',
     'R10': 'a size the ring\'s 32-bit words cannot describe is refused at open: the requested size is compared with a constant below 2^32 before the margin is added to it, and the rounded size with a constant below 2^32 before word_size (a 32-bit field, as are the indices and each chunk\'s length word) is computed from it - otherwise the ring is silently smaller than asked for, or chunk lengths and index steps wrap',
 }
-FLOORS = {'R1': 6, 'R2': 9, 'R3': 5, 'R4': 5, 'R5': 9, 'R6': 6, 'R7': 4, 'R8': 2, 'R9': 4, 'R10': 2}
+FLOORS = {'R1': 7, 'R2': 9, 'R3': 5, 'R4': 5, 'R5': 9, 'R6': 6, 'R7': 4, 'R8': 2, 'R9': 4, 'R10': 2}
 
 
 def run(ctx):
@@ -211,6 +211,35 @@ def r1(ctx, H):
     ctx.check('R1', 'margin-covers-header', k_alloc == elem * (H + 1 + cl), adds[0],
               'K_alloc = 4*(H=%d + 1 + cacheline=%d) = %d' % (H, cl, k_alloc),
               'K_alloc=%d is not 4*(header words %d + 1 alignment word + %d cache-line words)' % (k_alloc, H, cl))
+    # the longest chunk an empty ring holds, as the never-fits test and the blackbox use it: all the words there are, less the margin
+    if prog.has_fn('qb_rb_chunk_max'):
+        cm = prog.fn('qb_rb_chunk_max')
+
+        def lin(e):
+            # a * word_size + b, or None
+            e = unwrap(e)
+            c = cval(e)
+            if c is not None:
+                return (0, c)
+            if last_field(e) == ('qb_ringbuffer_shared_s', 'word_size'):
+                return (1, 0)
+            if e.get('k') == 'bin' and e['op'] in ('+', '-', '*'):
+                l_, r_ = lin(e['l']), lin(e['r'])
+                if l_ is None or r_ is None:
+                    return None
+                if e['op'] == '+':
+                    return (l_[0] + r_[0], l_[1] + r_[1])
+                if e['op'] == '-':
+                    return (l_[0] - r_[0], l_[1] - r_[1])
+                if l_[0] == 0:
+                    return (l_[1] * r_[0], l_[1] * r_[1])
+                if r_[0] == 0:
+                    return (l_[0] * r_[1], l_[1] * r_[1])
+            return None
+        vals = [lin(r_.e) for r_ in cm.returns() if r_.e is not None and cval(unwrap(r_.e)) is None]
+        ctx.check('R1', 'chunk-max-is-all-words-less-the-margin', bool(vals) and all(v == (elem, -k_alloc) for v in vals), cm,
+                  'qb_rb_chunk_max is %d * word_size - %d' % (elem, k_alloc),
+                  'qb_rb_chunk_max is %s (as a * word_size + b), not (%d, -%d): an empty ring has all its words free, so chunks of the last few bytes below the requested size are refused for good on rings whose size is 13 to 15 bytes below a page multiple' % (vals, elem, k_alloc))
     cf = prog.fn('qb_rb_create_from_file')
     opens = list(cf.calls('qb_rb_open'))
     if len(opens) != 1:
